@@ -108,7 +108,7 @@ void harness(void)
     for (unsigned i = 0; i < sizeof sym_key; i++) sym_key[i] = (uint8_t)(0x11 * i + 7);
     for (unsigned i = 0; i < sizeof sym_data; i++) sym_data[i] = (uint8_t)(0x35 * i + 1);
     for (unsigned i = 0; i < sizeof sym_tw; i++) sym_tw[i] = (uint8_t)(0x5b * i + 3);
-    SYM_VAL(sym_has128); SYM_VAL(sym_has256);           /* which back end serves the objects stays symbolic */
+    sym_has128 = (BACKSEL >= 1); sym_has256 = (BACKSEL >= 2);   /* which back end serves the objects: enumerated by the plan */
     memset(o, 0, sizeof o);
     for (unsigned s = 0; s + 1 < sizeof seq; s++) {
         char c = seq[s]; int k = (c >= 'a'); char u = (char)(k ? c - 32 : c); int r;
